@@ -5,6 +5,8 @@ import vlib, flow, gen_trans
 H = os.path.join(vlib.ROOT, 'harness/kernel/mm/vmm')
 vlib.register_const_dump('kernel', 'mm/vmm', os.path.join(H, 'zz_verif_consts_test.go'))
 gen_trans.register('mm_vmm.json')   # Go -> Gallina translation of EarlyReserveRegion and the mm page/frame helpers
+gen_trans.register('mm_vmm2.json')  # extended mode: MapRegion / IdentityMapRegion with the function-variable seams (Gen/Trans_mm_vmm2.v, Vmm/RegionTrans2.v)
+gen_trans.register('goruntime_boot.json')  # sysReserve / sysMap / sysAlloc with their seams (Gen/Trans_goruntime_boot.v, Goruntime/BootTrans.v)
 
 TEMP = 0xffffff7ffffff000
 M64 = (1 << 64) - 1
@@ -67,7 +69,9 @@ def rt_explain(nums):
 class C07(flow.Spec):
     prop = 'C07'
     props_files = ['theories/Props/C07.v', 'theories/Props/C07_examples.v',
-                   'theories/Props/C07_goruntime.v', 'theories/Props/C07_goruntime_examples.v']
+                   'theories/Props/C07_goruntime.v', 'theories/Props/C07_goruntime_examples.v',
+                   'theories/Props/C07_region_trans.v', 'theories/Props/C07_region_trans_examples.v',
+                   'theories/Props/C07_goruntime_trans.v', 'theories/Props/C07_goruntime_trans_examples.v']
     model_targets = ['theories/Vmm/Region.vo', 'theories/Goruntime/Boot.vo']
     pkg = 'mm/vmm'
     harness = [os.path.join(H, 'zz_verif_c07_test.go')]
